@@ -11,7 +11,13 @@ reg(Prop('C11', 'Kevo.Props.C11',
          facts=['consts:block.*', 'consts:footer.*', 'consts:sstable.*', 'facts:sstable.*'],
          components=[SST, SSTSWEEP],
          fact_tags=['sstable', 'block', 'footer', 'bloom'],
-         rule='component sstsweep (implementation only): EVERY single-bit alteration of table files with 3..60 entries (1..4 restart points) - open, '
+         rule='block cache (Kevo.Model.Table Cache.get/Cache.put/getsC; theorems cache_transparent, table_get_cached_spec: for every capacity, '
+              'eviction choice and lookup history the cached lookup returns what the uncached one returns): tied by facts sstable.cache.* '
+              '(asked for and filled under the offset of the fetched block, stored only after a successful fetch, capacity) and by one '
+              'table per run with 130..260 data blocks - more than the cache holds - read by 4000 random lookups (present and absent keys) '
+              'and a full iteration (implementation only; cache contents are not compared: Go evicts in map-iteration order, the theorem '
+              'quantifies over every choice). '
+              'component sstsweep (implementation only): EVERY single-bit alteration of table files with 3..60 entries (1..4 restart points) - open, '
               'full iteration, lookup of every written key: only written entries, no panic, no endless iteration. '
               'component sst: blocks (1..100 entries around the restart interval 15/16/17/31/32/33) and tables (1..380 entries, '
               'values to 9 KB so that several 64 KB blocks are cut, with and without bloom filters) built with the real '
